@@ -77,7 +77,8 @@ prop("C05",
           "availability breakpoints, window-start crossings, across wraps and after the stop time. Relational oracle over the fetched MPDs: "
           "first/last listed never move back, live edge = newest ended segment at every instant, publishTime <= now, non-decreasing, equal to "
           "the availability instant of the newest listed segment (ms), equal publishTime => byte-identical documents, plain $Number$ single "
-          "period => all documents identical, after stop => static with duration stop-start and unchanging. Non-trivial = a set whose "
+          "period => all documents identical, after stop (also with periods) => static with duration stop-start, unchanging, publishTime not "
+          "lower than before the stop. Non-trivial = a set whose "
           "instants are separated by >= 1 breakpoint (live edge differs); distinct by hash of the case.",
      quick=dict(shards=2, timeout=400), thorough=dict(shards=16, timeout=1500, pct=400),
      assumptions=COMMON + ["publishTime is compared at millisecond resolution (floor..ceil of the exact change instant)"])
@@ -89,7 +90,10 @@ prop("C06",
           "The multi-period MPD and the single-period MPD of the same instant are parsed: periods tile k*P with ids P<k>, PTO = k*P*timescale, "
           "every single-period segment starting at or after the first period start appears exactly once in the period containing its start "
           "with the same time/duration/number, no extra segments, per-period URLs return the same bytes, continuity signalled iff requested, "
-          "incompatible values rejected. Non-trivial = an MPD with >= 2 periods of which >= 2 non-empty; distinct by hash of the case.",
+          "incompatible values rejected. Optionally a stop time ahead of, shortly before or long before the instant (the static MPD must still "
+          "consist of the tiles P<k> up to the one containing the stop time, mapped against the single-period MPD with the same stop time), "
+          "and continuous_1 written before or after periods_N. "
+          "Non-trivial = an MPD with >= 2 periods of which >= 2 non-empty; distinct by hash of the case.",
      quick=dict(shards=2, timeout=400), thorough=dict(shards=16, timeout=1500, pct=400),
      assumptions=COMMON + ["start_ = 0 (the statement gives period starts in wall-clock terms); tsbd >= 2 segment durations"])
 
@@ -171,7 +175,8 @@ prop("C09",
           "same samples (times, durations, flags, payload) as the whole-segment response, styp on the first chunk only, chunks contiguous "
           "with the segment's number, no chunk longer than segment duration - ato + one sample, with DRM a senc box with one entry per sample "
           "in every chunk, one flush per chunk, no chunk flushed before "
-          "its media end minus 2 ms (one-sided), request before the advertised availability time -> 425. Non-trivial = a response with >= 2 "
+          "its media end minus 2 ms (one-sided), request before the advertised availability time -> 425, and (unpaced cases) an extra request "
+          "0..1500 ms after the advertised availability time, abandoned at its first bytes, is admitted (200). Non-trivial = a response with >= 2 "
           "chunks (paced: of which >= 1 had to wait); distinct by hash of the case.",
      quick=dict(shards=2, timeout=400), thorough=dict(shards=16, timeout=1500, pct=300),
      assumptions=COMMON + ["timing is judged one-sided (a chunk may be late, never early); no upper latency bound is asserted"])
@@ -201,7 +206,8 @@ prop("C08",
           "4xx with a message for malformed / documented out-of-range values, 404 for unknown assets and segments. Non-trivial = a request "
           "that got past URL parsing (status != 400); distinct by method+URL+body. Also: low-latency boundary requests (ato at/around the asset's "
           "segment duration with chunkdur), BaseURL indices up to and beyond the number of traffic patterns, option-like path parts after the asset "
-          "name. Receiver part (TestC08Receiver): histories of 3-14 uploads "
+          "name; a third of the requests is otherwise servable (2/6/8 s assets, newest segments by number or time, or the first segments of a "
+          "stream that started 15 s ago) so that the hostile value reaches the segment code, incl. status-code cycles shorter than a segment. Receiver part (TestC08Receiver): histories of 3-14 uploads "
           "to a fresh receiver: valid init/media segments of video/audio/text tracks on 1-2 channels, and the same with 1-3 mutations (box size "
           "fields set to 0,1,2,7,8,9,..,16 MiB, ~4 GiB or +-1..9; box types swapped incl. container/leaf confusion; truncation anywhere and inside "
           "headers; 32-bit payload fields set to hostile values; trailing bytes; duplicated / swapped boxes; bit flips), hostile paths, all "
@@ -230,14 +236,18 @@ prop("C17",
 
 prop("C19",
      rule="rapid draws 1-4 channels x 2-8 tracks (video master, further video, audio, wvtt text), 2-6 segments per track, Streams() or per-segment "
-          "URLs, with/without Basic auth and per-representation configuration. Per case a sequential round-robin reference run, then 2-6 "
+          "URLs, with/without Basic auth (per channel or default credentials; channels absent from the configuration) and per-representation "
+          "configuration (language, bitrate, ignored tracks; ignored channels); on channels with credentials, uploads without or with wrong "
+          "credentials (a further track's init, forged media for track 0) arrive together with the legitimate ones and must be answered 401 and leave "
+          "no trace; ignored tracks/channels are answered 200, not registered, not stored and not listed. "
+          "Per case a sequential round-robin reference run, then 2-6 "
           "concurrent runs on fresh receivers under the race detector: all first uploads (init segments) released by one barrier from separate "
           "goroutines, then per segment number all tracks of all channels at once (as the sender does); optionally channels whose decode times are "
           "shifted against their numbers, and a phase in which init segments are re-sent on the started channels together with media. Oracle: every "
           "concurrent phase ends within 20 s, no race report and no fatal "
           "(driver), every upload saw the same channel object and every track is registered (hook VerifChannelState), every 200-answered "
           "upload stored under its own track with its own bytes, the final MPD lists every track and, reduced to what must not depend on the "
-          "arrival order (per representation: kind, timescale, numbers, (t,d)), equals the sequential run's. Every case starts >= 2 tracks of "
+          "arrival order (per representation: kind, language, timescale, numbers, (t,d)), equals the sequential run's and lists no other representation. Every case starts >= 2 tracks of "
           "a new channel simultaneously (non-trivial by construction); distinct by hash of the case.",
      race=True, crash_is_violation=True, quick=dict(shards=2, timeout=500), thorough=dict(shards=8, timeout=1500, pct=200),
      assumptions=COMMON + ["interleavings are sampled by the Go scheduler (barriers and repetition raise the odds); absence of races is not established"])
@@ -263,7 +273,9 @@ prop("C16",
 prop("C07",
      rule="rapid draws an asset (bundled or generated), 1-3 instants, 1-3 option sets from a pool of 38 URL options (segment "
           "timeline, periods, DRM/ECCP, chunked, subtitles, SCTE-35, patch, ...) and a multiset of 6-30 requests (MPD, init, media of any "
-          "representation around the live edge, generated subtitles, MPD patch, pages, ingest API calls). Oracle: the (status, "
+          "representation around the live edge, generated subtitles, MPD patch, pages, ingest API calls); DRM options are drawn more often, and "
+          "requests get sibling requests that differ in one related option (other CPIX package of the same scheme, other scheme, other timeline "
+          "flavour, other tsbd/snr/start ...), so that an answer cached under an incomplete key shows as history dependence. Oracle: the (status, "
           "content type, body hash) of every non-API request on a fresh instance in generated order is the reference; the same "
           "requests must give the same answer when repeated within that pass, on the long-running shared instance in a permuted order "
           "(twice), on an instance loaded from representation-data files, and when the multiset is served 1-3 times by 2-16 concurrent "
